@@ -1,18 +1,18 @@
 CONSTANTS
   Ticks = {1, 2, 5}
   Horizon = 100000
-  RawTTLs = {7}
+  RawTTLs = {0, 7}
   AuxSet <- AuxN
   Deltas = {3}
   Floor = 5
   Cap = 86400
   EcsCap = 3
   CutMax = 0
-  Keys <- KeysT
-  Chain <- ChainF
+  Keys <- KeysC
+  Chain <- ChainC
   NegKey = "ng"
   ScopedKey = "sc"
-  Routes = {"msg"}
+  Routes = {"msg", "wire"}
   Reqs = {1}
   MaxLeases = 1
   Zones <- ZonesA
